@@ -118,3 +118,40 @@ def check_fmtfail(toks, resp, mode):
     else:
         ok = resp.f[1] == "err" and want.startswith(got) and len(got.encode()) <= cap
     return ("ok" if ok else "viol"), "fmtfail." + ("fits" if fits else "fails"), True, exp
+
+
+def wide_tie_word_products(rng, fixed_n=None):
+    """(x, a, y, b, n): x @ a * y @ b rounded to n digits cuts p = a + b - n digits off a product beyond i128 whose
+    cut-off part is d * 10^(p-1) + j * 2^w (d = 5 or 0, w = 32 / 64 / 96, j > 0): a tie, or nothing, plus a non-zero
+    multiple of a machine word - where "something non-zero follows" is judged from a truncated word. y is random and
+    coprime to 10, the kept quotient is solved modulo y."""
+    from ..oracle import M, P10
+    out = []
+    for p in range(2, 37):
+        for d in (5, 0):
+            for w in (32, 64, 96):
+                if (1 << w) >= P10[p - 1]:
+                    continue
+                j = rng.randrange(1, max(2, min(1 << 30, P10[p - 1] >> w)))
+                r = d * P10[p - 1] + (j << w)
+                for _try in range(20):
+                    y = rng.getrandbits(rng.randrange(30, 110)) | 1
+                    if y % 5 == 0:
+                        continue
+                    q0 = (-r * pow(P10[p], -1, y)) % y
+                    tmax = (M * y // P10[p] - q0) // y
+                    if tmax < 1:
+                        continue
+                    q = q0 + rng.randrange(max(0, tmax // 2), tmax + 1) * y
+                    t = q * P10[p] + r
+                    x = t // y
+                    if t % y or x > M or q > M or t <= M:
+                        continue
+                    ab = [(a, b) for a in range(19) for b in range(19)
+                          if 0 <= a + b - p <= 18 and (fixed_n is None or a + b - p == fixed_n)]
+                    if not ab:
+                        break
+                    a, b = rng.choice(ab)
+                    out.append((x, a, y, b, a + b - p))
+                    break
+    return out
